@@ -23,6 +23,11 @@ package peer
 //@ ensures c.streamAlloc.next == old(c.streamAlloc.next) + 2
 //@ ensures result != 0 && result % 2 == ite(c.streamAlloc.isDialer, 1, 0)
 
+// A connection keeps the allocator (and the role) it was constructed with: neither field is assigned anywhere
+// but in NewConnection, so "the allocator's role is the connection's role" holds for a connection's whole life.
+//@ fieldwritesonly[C38] Connection.streamAlloc: NewConnection
+//@ fieldwritesonly[C38] Connection.isDialer: NewConnection
+
 // ---- C31: no attempt starts and no retry is armed while paused; bounded exponential backoff ----
 // float64 arithmetic is modelled over the reals (assumption A6).
 
